@@ -251,10 +251,10 @@ def law_tests(rep, tier, seed):
         bad = None
         ps = []
         for k, tt in enumerate(times):
-            # occupancy probabilities of one individual at time t (closed form, a != b by construction)
+            # occupancy probabilities of one individual at time t (closed form; the limit a t exp(-a t) when a = b)
             af, bf, tf = float(a), float(b), float(tt)
             p1 = np.exp(-af * tf)
-            p2 = af / (bf - af) * (np.exp(-af * tf) - np.exp(-bf * tf))
+            p2 = af * tf * np.exp(-af * tf) if af == bf else af / (bf - af) * (np.exp(-af * tf) - np.exp(-bf * tf))
             p3 = 1 - p1 - p2
             ps.append([p1, p2, p3])
             for j, pj in enumerate((p1, p2, p3)[:len(rows[0][0]) if rows else 3]):
